@@ -3,7 +3,9 @@ from checks import gcmon_common as C
 
 THEOREMS = ["Mmtk.Heap.checkAlloc_none_iff", "Mmtk.Heap.sizeFor_ge", "Mmtk.Heap.sizeFor_aligned", "Mmtk.Heap.sizeFor_min",
             # the allocators' arithmetic (every legal input), Props/C03Algo.lean
-            "Mmtk.AllocArith.alignAllocation_good", "Mmtk.AllocArith.maxAlignedSize_val", "Mmtk.AllocArith.bump_fast_cases", "Mmtk.AllocArith.bump_fast_ok", "Mmtk.AllocArith.bump_fast_never_panics", "Mmtk.AllocArith.bump_fast_refines", "Mmtk.AllocArith.fresh_buffer_fits", "Mmtk.AllocArith.acquireBlockSize_spec", "Mmtk.AllocArith.fresh_block_cases", "Mmtk.AllocArith.fresh_block_fits_iff", "Mmtk.AllocArith.fresh_block_ok", "Mmtk.AllocArith.fresh_block_never_panics", "Mmtk.AllocArith.fresh_block_fits_offset_multiple", "Mmtk.AllocArith.fresh_block_with_slack_fits", "Mmtk.AllocArith.bump_align_leak", "Mmtk.AllocArith.bump_align_leak_witness", "Mmtk.AllocArith.immix_hole_fits", "Mmtk.AllocArith.immix_clean_block_fits", "Mmtk.AllocArith.los_alloc_within_pages", "Mmtk.AllocArith.los_no_slack_overflows", "Mmtk.AllocArith.los_pages_without_slack_too_small", "Mmtk.AllocArith.freelist_alloc_within_cell", "Mmtk.AllocArith.bump_alloc_result_good", "Mmtk.AllocArith.acquire_block_result_good", "Mmtk.AllocArith.immix_hole_result_good", "Mmtk.AllocArith.los_alloc_result_good", "Mmtk.AllocArith.freelist_alloc_result_good", "Mmtk.AllocArith.alloc_result_good"]
+            "Mmtk.AllocArith.alignAllocation_good", "Mmtk.AllocArith.maxAlignedSize_val", "Mmtk.AllocArith.bump_fast_cases", "Mmtk.AllocArith.bump_fast_ok", "Mmtk.AllocArith.bump_fast_never_panics", "Mmtk.AllocArith.bump_fast_refines", "Mmtk.AllocArith.fresh_buffer_fits", "Mmtk.AllocArith.acquireBlockSize_spec", "Mmtk.AllocArith.fresh_block_cases", "Mmtk.AllocArith.fresh_block_fits_iff", "Mmtk.AllocArith.fresh_block_ok", "Mmtk.AllocArith.fresh_block_never_panics_old", "Mmtk.AllocArith.fresh_block_fits_offset_multiple", "Mmtk.AllocArith.fresh_block_with_slack_fits", "Mmtk.AllocArith.bump_align_leak", "Mmtk.AllocArith.bump_align_leak_witness", "Mmtk.AllocArith.immix_hole_fits", "Mmtk.AllocArith.immix_clean_block_fits", "Mmtk.AllocArith.los_alloc_within_pages", "Mmtk.AllocArith.los_no_slack_overflows", "Mmtk.AllocArith.los_pages_without_slack_too_small", "Mmtk.AllocArith.freelist_alloc_within_cell", "Mmtk.AllocArith.bump_alloc_result_good", "Mmtk.AllocArith.acquire_block_result_good_old", "Mmtk.AllocArith.immix_hole_result_good", "Mmtk.AllocArith.los_alloc_result_good", "Mmtk.AllocArith.freelist_alloc_result_good", "Mmtk.AllocArith.alloc_result_good",
+            # the repaired acquire_block (this tree)
+            "Mmtk.AllocArith.fresh_block_always_fits", "Mmtk.AllocArith.fresh_block_never_panics", "Mmtk.AllocArith.acquire_block_result_good", "Mmtk.AllocArith.acquireBlock_eq_old_of_min_align"]
 META = {
     "text": "At every `alloc` of every run the monitor evaluates the clauses of C03 on what the real allocator returned: non-null, (a+offset) % align = 0, granted size = requested object size, is_in_mmtk_spaces, bytes zero, SFT space = the plan's allocator mapping for the semantics (asked from the live plan: `allocmap`), and `timeout` = non-termination (watchdog). Proved: `checkAlloc` answers none exactly when the conjunction of the clauses holds (`checkAlloc_none_iff`), and the requested size covers header + fields + payload, is 8-aligned and >= 32 (`sizeFor_*`). Inputs: structured sweep of every legal semantics x boundary sizes (TLAB 32 KB, Immix line/block, mark-sweep classes and the 64 KB limit, the plan's LOS threshold +-8/64, pages, up to 256 KB) x aligns 8..64 x offsets 0..72, on all 11 plans, plus the allocations of all other programs.",
     "note": "Level: proof of the verdict function, partial w.r.t. the code. NEW defect gc:bump-align-leak (BumpAllocator::acquire_block ignores the alignment slack; the request never fits its fresh block, leaks a block per retry and ends in out_of_memory / `GC triggered in nogc`) is reported by a dedicated corpus program and kept out of the random stream. copyspace0/copyspace1 are identified (the mapping flips at every GC).",
